@@ -455,7 +455,33 @@ def cross_pool(e, cache):
             D.date(2020, 1, 2), D.time(3, 4, 5, 6), D.time(0, 0), Dec('1.5'), Dec('5'), objs[0], objs[1], uuid.UUID(int=5), [1], (1, 2),
             D.timedelta(seconds=3700, microseconds=5), {'a': 1}, '2020-01-02', '2021-02-30', '03:04:05', '03:04:05.5', '3:4:5.1234567',
             '2020-01-02 03:04:05', '2020-1-2', 2 ** 63, 2 ** 53 + 1, 2 ** 54, -2 ** 63 - 1, 10 ** 25, float('inf'), float('nan'), 'a\x00b',
-            Dec('12345678901234567890.123'), Dec('NaN'), Dec('1E+3'), bytearray(b'ab'), 3.0] + list(e['others'][('s', cache)][1][:2])
+            Dec('12345678901234567890.123'), Dec('NaN'), Dec('1E+3'), bytearray(b'ab'), 3.0,
+            0.1, 21.12, -1234.56, 1e-7, 0.3, 2.675, Dec('0.1'), Dec('-21.12'), '21.12', '0.1'] + list(e['others'][('s', cache)][1][:2])
+
+
+def gen_foreign(rng):
+    """a plain value of SOME Python type, to be given to a column of another type (cross-feeding): moderate
+    magnitudes, decimal (non-dyadic) fractions, digit strings — what an application would plausibly pass"""
+    k = rng.randint(0, 9)
+    if k == 0:
+        return rng.randint(-10 ** 6, 10 ** 6)
+    if k == 1:
+        return rng.randint(-10 ** 7, 10 ** 7) / rng.choice([10, 100, 1000])          # float, mostly non-dyadic
+    if k == 2:
+        return Dec(rng.randint(-10 ** 7, 10 ** 7)) / rng.choice([1, 10, 100, 1000])
+    if k == 3:
+        return str(rng.randint(-10 ** 4, 10 ** 4) / rng.choice([1, 10, 100]))
+    if k == 4:
+        return str(rng.randint(-10 ** 6, 10 ** 6))
+    if k == 5:
+        return gen_datetime(rng)
+    if k == 6:
+        return gen_date(rng)
+    if k == 7:
+        return gen_time(rng)
+    if k == 8:
+        return rng.random() < 0.5
+    return gen_bytes(rng)
 
 
 def in_domain(T, v):
@@ -959,6 +985,11 @@ def build_cases(ctx, e):
     for T in TYPES:
         for k in range(ncross):
             cases.append((T, ('cross', k), idx))
+            idx += 1
+    # cross-feeding: generated values of other Python types given to every column type
+    for T in TYPES:
+        for _ in range(ctx.budget(14, 200)):
+            cases.append((T, gen_foreign(rng), idx))
             idx += 1
     return cases
 
